@@ -226,7 +226,36 @@ func (a *Operator) useHexBackslashes(input string) string {
 // to be interpreted as a literal.
 func (a *Operator) includeVerticalTabInSpaceClass(input string) string {
 	logger.Trace().Msg("Fixing up regex to include vertical tab (VT) in white space class matches")
-	return strings.ReplaceAll(input, `\t\n\f\r `, `\s\x0b`)
+	const perlSpace = `\t\n\f\r `
+	var sb strings.Builder
+	inClass := false
+	for i := 0; i < len(input); {
+		switch {
+		case input[i] == '\\' && i+1 < len(input) && !(inClass && strings.HasPrefix(input[i:], perlSpace)):
+			// copy escape sequences verbatim
+			sb.WriteString(input[i : i+2])
+			i += 2
+		case !inClass && input[i] == '[':
+			inClass = true
+			sb.WriteByte(input[i])
+			i++
+		case inClass && input[i] == ']':
+			inClass = false
+			sb.WriteByte(input[i])
+			i++
+		case inClass && strings.HasPrefix(input[i:], perlSpace):
+			sb.WriteString(`\s\x0b`)
+			i += len(perlSpace)
+			// the space is the start of a range, e.g., `[\t\n\f\r -~]`; retain it
+			if i+1 < len(input) && input[i] == '-' && input[i+1] != ']' {
+				sb.WriteByte(' ')
+			}
+		default:
+			sb.WriteByte(input[i])
+			i++
+		}
+	}
+	return sb.String()
 }
 
 // rassemble-go doesn't provide an option to specify literals.
